@@ -18,6 +18,9 @@ pub struct Bulk {
     /// entries [k, v] (serde / rayon, plain integer keys and values) or [k, tag, uid, pl] (collect / extend)
     #[serde(default)]
     pub entries: Vec<Vec<i64>>,
+    /// entries [k, v] inserted sequentially before a parallel extend
+    #[serde(default)]
+    pub pre: Vec<Vec<i64>>,
     /// raw document text for deserialisation (if empty it is built from `entries`)
     #[serde(default)]
     pub doc: String,
@@ -140,11 +143,17 @@ pub fn run_bulk(job: &crate::Job, raw: &str) -> Value {
                     "from_par_iter_map" => items.into_par_iter().collect(),
                     "par_extend_mapref" => {
                         let m = HashMap::with_hasher(H::default());
+                        for e in &b.pre {
+                            m.pin().insert(e[0] as u32, e[1]);
+                        }
                         m.pin().par_extend(items);
                         m
                     }
                     _ => {
                         let mut m = HashMap::with_hasher(H::default());
+                        for e in &b.pre {
+                            m.pin().insert(e[0] as u32, e[1]);
+                        }
                         m.par_extend(items);
                         m
                     }
@@ -158,6 +167,9 @@ pub fn run_bulk(job: &crate::Job, raw: &str) -> Value {
                     "from_par_iter_set" => items.into_par_iter().collect(),
                     _ => {
                         let mut s = HashSet::with_hasher(H::default());
+                        for e in &b.pre {
+                            s.pin().insert(e[0] as u32);
+                        }
                         s.par_extend(items);
                         s
                     }
